@@ -29,6 +29,8 @@ var coreGen = rapid.OneOf(
 	rapid.StringMatching(`[ab]//[ab]`),
 	// zero-width characters and the byte order mark are NOT white space: they belong to the path on both sides
 	rapid.SampledFrom([]string{"a\u200b", "\ufeffa", "a\u200d", "\u2060b", "a/b\u200c"}),
+	// long paths (64-400 bytes): beyond any small bitmap or buffer
+	rapid.Map(rapid.IntRange(6, 40), func(n int) string { return strings.Repeat("ab/cdefgh-", n) + "z" }),
 	rapid.Just(""),
 )
 
